@@ -525,8 +525,11 @@ impl FixtureDatabase {
                     }
                 }
 
-                // Then add fixtures imported into the conftest
-                if self.file_cache.contains_key(&conftest_path) {
+                // Then add fixtures imported into the conftest.
+                // Accept a conftest that is on disk but not (or no longer) in the content
+                // cache, exactly as find_closest_definition does: closing the document or
+                // cache eviction must not hide the fixtures it imports.
+                if self.file_cache.contains_key(&conftest_path) || conftest_path.exists() {
                     let mut visited = HashSet::new();
                     let imported_fixtures =
                         self.get_imported_fixtures(&conftest_path, &mut visited);
